@@ -24,6 +24,7 @@ func TestC03(t *testing.T) {
 	matrixC03Faults(t, r)
 	restartNonces(t, r)
 	sidecarLogs(t, r)
+	shortEntropy(t, r)
 	r.Finish(t)
 }
 
